@@ -41,6 +41,12 @@ Tie (three parts, all on the working tree on every run):
     that a second answer is seen. Same oracle (the object's truth value and the duration are no inputs of it), the model
     (`sreqo` = `serveStepTimed`) must also predict the virtual time until the loop is back at recv(), and every request is
     re-run with an instant handler on a plain object on a fresh connection (real loop) and must be answered byte-identically.
+    CALLS IN BOTH DIRECTIONS (harness/c11_duplex.py): every class is served while 1..3 tasks of the served side have calls of their
+    own outstanding towards the peer; schedules of (outgoing call / peer request of every outcome kind / the peer's answer / stray
+    response) events; the peer requests are judged and replayed through the model like all others, the calls by `DUP.judge_calls`.
+    ORDER OF FIRST USE of structure classes (harness/c11_firstuse.py): ancestor-then-derived / derived-then-ancestor / alone, for every
+    (ancestor, derived) pair of structure classes, each sequence in an interpreter that has used no structure yet; oracle = the
+    reference reader over the response body vs the Python value the handler returned (no library encoder / decoder involved).
  3. oracle on the real code = the property's outcome table, judged independently of the model.
 """
 import os, random, struct, multiprocessing, importlib, collections, itertools
@@ -863,6 +869,72 @@ def shrink_history(srvinfos, seq, minor, fresh_last):
     return prefix + [last]
 
 
+
+# ------------------------------------------------------------------ order of first use of structure classes (harness/c11_firstuse.py)
+def _firstuse_call(mode, data, timeout=1500):
+    import subprocess, sys, json
+    p = subprocess.run([sys.executable, os.path.join(os.path.dirname(os.path.abspath(__file__)), "c11_firstuse.py"), mode],
+                       input=json.dumps(data), stdout=subprocess.PIPE, stderr=subprocess.PIPE, text=True, timeout=timeout)
+    if p.returncode != 0: raise vf.InfraError("c11_firstuse %s failed: %s" % (mode, p.stderr[-1500:]))
+    return json.loads(p.stdout)
+
+
+def firstuse_run(seed, tier, box):
+    """(in a thread, beside the pool) generate the sequences, run each in an interpreter that has used no structure yet"""
+    try:
+        g = _firstuse_call("gen", {"seed": seed, "tier": tier})
+        jobs = g["jobs"]
+        res = _firstuse_call("run", jobs)
+        # a sample once more in really fresh interpreters (one python process per sequence)
+        two = [i for i, j in enumerate(jobs) if len(j["steps"]) == 2]
+        rng = random.Random(seed)
+        pick = rng.sample(two, min(len(two), 6 if tier == "quick" else 48))
+        fresh = {i: _firstuse_call("run1", jobs[i]) for i in pick}
+        box.update({"jobs": jobs, "results": res, "fresh": fresh, "pairs": g["pairs"], "stats": g["stats"]})
+    except BaseException as e:
+        box["error"] = e
+
+
+def firstuse_judge(ctx, box):
+    if "error" in box: raise vf.InfraError("first-use family: %r" % (box["error"],))
+    jobs, results = box["jobs"], box["results"]
+    runs = [(j, r, "forked from a zygote that only imported the library") for j, r in zip(jobs, results)]
+    runs += [(jobs[i], r, "a fresh python process") for i, r in box["fresh"].items()]
+    same = {}       # (configuration, request, handler script) -> first (job, step index, datagrams sent)
+    n_steps = n_bad = 0
+    for job, r, how in runs:
+        if "error" in r: raise vf.InfraError("first-use family: a sequence could not be run: %s" % r["error"][-800:])
+        desc = " then ".join("%s.%s [%s %s]" % (job["servers"][s["srv"]]["class"], s["user"], {"resp": "returns", "req": "takes", "any-resp": "returns in a holder", "any-req": "takes in a holder"}[s["way"]], s["cls"]) for s in job["steps"])
+        for k, (st, x) in enumerate(zip(job["steps"], r["steps"])):
+            n_steps += 1
+            si = job["servers"][st["srv"]]
+            ctx.case(key=("firstuse", job["cfg"], tuple(job["pair"]), job["order"], k, st["datagram"][:60], st["vseed"]), nontrivial=True,
+                     tag="firstuse:%s:%s=>%s" % (job["order"], st["way"], "problem" if x["problems"] else "silent" if si["noresponse"] else "send-ok"))
+            for key, why in x["problems"]:
+                n_bad += 1
+                if n_bad > 4: break          # (the first few sequences are enough)
+                ctx.violation("c11:firstuse:%s:%s" % (key, job["pair"][0]),
+                              "RMC server, order of first use of structure classes in one process (%s; PRUDP minor version %d, nex.version %d; the first requests this process ever served: %s): request %d: %s"
+                              % (how, job["cfg"] % 100, R.NEX_VERSIONS[job["cfg"] // 100], desc, k + 1, why),
+                              {"firstuse": job, "step": k, "problems": x["problems"], "sent": x.get("sent"),
+                               "how": "harness/corr_C11.py replay(): harness/c11_firstuse.py run1 (the sequence in a fresh python process)"})
+                break
+            sig = (job["cfg"], st["datagram"], st["vseed"], tuple(st["any_resp"]))
+            if sig not in same: same[sig] = (job, k, x.get("sent"), desc)
+            elif same[sig][2] != x.get("sent") and not ctx.violations:
+                oj, ok_, osent, odesc = same[sig]
+                ctx.violation("c11:firstuse:order-dependence:%s" % job["pair"][0],
+                              "RMC server: the same request (%s.%s, same handler result) is answered %s as request %d of a process whose first requests are [%s], but %s as request %d of a process whose first requests are [%s]"
+                              % (si["class"], st["user"], x.get("sent"), k + 1, desc, osent, ok_ + 1, odesc),
+                              {"firstuse": job, "step": k, "firstuse_other": oj, "step_other": ok_,
+                               "how": "harness/corr_C11.py replay(): both sequences, each in a fresh python process; the answers to the named steps are compared"})
+    ctx.extra["first_use_ancestor_derived_pairs"] = box["pairs"]
+    ctx.extra["first_use_sequences_each_in_an_interpreter_that_used_no_structure_yet"] = len(jobs)
+    ctx.extra["first_use_sequences_rerun_in_really_fresh_python_processes"] = len(box["fresh"])
+    ctx.extra["first_use_requests_judged"] = n_steps
+    ctx.extra["first_use_sequences_by_order"] = box["stats"]
+
+
 # ------------------------------------------------------------------ run
 def translate(ctx):
     servers, problems = T.extract_all(vf.REPO)
@@ -910,6 +982,10 @@ def run(ctx):
                 "x the registered OBJECT (an instance of the generated class, or of a stateful user subclass whose truth value is plain / empty or non-empty "
                 "container via __len__ / __bool__ False or True / both / changing from request to request) x the virtual time the handler awaits before its "
                 "outcome (0, 1 ms, 0.5 s ... 29 / 30 / 31 s ... 1 h, 1 day, random; virtual-time loop, the session lingers for late datagrams); "
+                "x the OTHER DIRECTION of the connection (0..3 calls of the served side outstanding towards the peer when the request arrives; schedules of outgoing calls, peer "
+                "requests and the peer's answers, answers before / between / after the requests, in and out of call order) "
+                "x the ORDER OF FIRST USE of structure classes in the process (every (ancestor, derived) pair of structure classes: ancestor first / derived first / each alone, every way "
+                "of using a class - returned, taken, in an anydata holder -, each sequence in an interpreter that has used no structure yet); "
                 "each request goes through the real RMCClient.start loop and through the Lean model; "
                 "a case is distinct per (class, method, kind, script, body)")
     ctx.assumptions.append("which `except`/`isinstance` clause a given Python exception class matches is modelled (Exc), exercised with subclasses and "
@@ -962,9 +1038,16 @@ def run(ctx):
         cfg = (3 if (i + ctx.seed) % 2 else 0) + 100 * ((i + ctx.seed) % len(R.NEX_VERSIONS))
         jobs.append(("duplex", [s] + ([nr] if nr else []), rng.randrange(1 << 30), ctx.tier, cfg, all_codes, None))
     par = min(16, os.cpu_count() or 1)
+    import threading
+    fu_box = {}
+    fu_thread = threading.Thread(target=firstuse_run, args=(ctx.seed, ctx.tier, fu_box))
+    fu_thread.start()
+    import time as _t
+    t_a = _t.time()
     with multiprocessing.get_context("fork").Pool(par) as pool:
         parts = pool.map(_worker, jobs, chunksize=1)
     sessions = [x for p in parts for x in p]
+    ctx.extra["seconds_in_the_session_pool"] = round(_t.time() - t_a, 1)
 
     # model lines: every connection's real request sequence, in order, through the model's `serve` (sbegin / sreq)
     lines, index = [], []
@@ -1018,7 +1101,9 @@ def run(ctx):
                 lines.append("sreq %s %s %s" % (case["datagram"], ex, ut)); index.append((sid, cid))
             if not res.get("skipped"):
                 lines.append("inv %s %s" % (case["datagram"], ex)); index.append((sid, cid, "inv"))
+    t_a = _t.time()
     outs = ctx.driver().batch(lines + wlines)
+    ctx.extra["seconds_in_the_lean_driver"] = round(_t.time() - t_a, 1)
     wouts, outs = outs[len(lines):], outs[:len(lines)]
     n_diff, first = 0, None
     n_wrong = n_wrong_incompat = 0
@@ -1147,6 +1232,11 @@ def run(ctx):
         if hres != real_h or reaction != real:
             n_diff += 1
             if first is None: first = (case, res, o, real_h + " => " + real, minor, [s["class"] for s in srvinfos])
+    # order of first use of structure classes
+    t_a = _t.time()
+    fu_thread.join()
+    ctx.extra["seconds_waiting_for_the_first_use_family_after_everything_else"] = round(_t.time() - t_a, 1)
+    firstuse_judge(ctx, fu_box)
     # the CALL side of the schedules with calls in both directions
     n_dup = n_dup_req = n_dup_while = n_dup_calls = 0
     for srvinfos, cases, results, minor, fresh, export in sessions:
@@ -1212,6 +1302,16 @@ def replay(ctx, path):
             ref = FR.reference(FR.schema_for(session_settings(r.get("minor_version", 0))), bool(c["rq"]["hdr"]), c["rq"]["tys"], bytes.fromhex(c["body"]))
             if ref is not None: c["ref"] = ref
         return c
+    if "firstuse" in r:
+        a = _firstuse_call("run1", r["firstuse"])
+        for st, x in zip(r["firstuse"]["steps"], a.get("steps", [])): print("%s [%s %s] -> %s %s" % (st["user"], st["way"], st["cls"], x.get("sent"), x["problems"] or ""))
+        bad = "error" in a or any(x["problems"] for x in a["steps"])
+        if "firstuse_other" in r:
+            b = _firstuse_call("run1", r["firstuse_other"])
+            for st, x in zip(r["firstuse_other"]["steps"], b.get("steps", [])): print("other order: %s [%s %s] -> %s %s" % (st["user"], st["way"], st["cls"], x.get("sent"), x["problems"] or ""))
+            if a["steps"][r["step"]].get("sent") != b["steps"][r["step_other"]].get("sent"): bad = True; print("VIOLATION order-dependence")
+        if bad: print("VIOLATION", [x["problems"] for x in a.get("steps", [])] or a.get("error"))
+        return 1 if bad else 0
     if "duplex" in r:
         evs = r["duplex"]
         recs = DUP.run_sessions([(regs, evs, r.get("minor_version", 0))])[0]
